@@ -132,7 +132,8 @@ impl<T: ValueRef<U> + ?Sized, U: PrimitiveValueType> ArrayBuilder for ChunkedArr
     }
 
     fn replace_bitmap(&mut self, valid: BitVec) {
-        let _ = mem::replace(&mut self.valid, valid);
+        self.valid.truncate(self.valid.len() - valid.len());
+        self.valid.extend_from_bitslice(&valid);
     }
 
     fn with_capacity(capacity: usize) -> Self {
